@@ -268,3 +268,43 @@ pub fn isolated(prop: &str, case: &serde_json::Value, work: &str, timeout_s: u64
     let _ = std::fs::remove_dir_all(&dir);
     res
 }
+
+/// Classify a crash of `vcheck <prop> --replay <case>` by running it once more under gdb and
+/// taking the most frequent in-repo function of the top of the stack (stack overflows repeat it).
+pub fn abort_signature(prop: &str, case: &serde_json::Value, work: &str) -> String {
+    static N: std::sync::atomic::AtomicU64 = std::sync::atomic::AtomicU64::new(0);
+    let n = N.fetch_add(1, std::sync::atomic::Ordering::Relaxed);
+    let rp = format!("{work}/gdbcase-{}-{n}.json", std::process::id());
+    if std::fs::write(&rp, serde_json::to_vec(&serde_json::json!({"property": prop, "replay": case})).unwrap_or_default()).is_err() {
+        return "unclassified".into();
+    }
+    let Ok(exe) = std::env::current_exe() else { return "unclassified".into() };
+    let out = std::process::Command::new("gdb")
+        .args(["-batch", "-ex", "run", "-ex", "bt 120", "--args"])
+        .arg(exe)
+        .args([prop, "--replay", &rp])
+        .output();
+    let _ = std::fs::remove_file(&rp);
+    let Ok(out) = out else { return "unclassified".into() };
+    let text = String::from_utf8_lossy(&out.stdout);
+    let mut counts: std::collections::BTreeMap<String, usize> = std::collections::BTreeMap::new();
+    for line in text.lines() {
+        if !line.starts_with('#') {
+            continue;
+        }
+        // "#12 0x… in emmylua_code_analysis::a::b::func (…) at …" or "#0  emmylua…::func (…)"
+        if let Some(pos) = line.find("emmylua_") {
+            let rest = &line[pos..];
+            let name: String = rest.split(|c: char| c == ' ' || c == '(' || c == '<').next().unwrap_or("").to_string();
+            if name.contains("::") {
+                *counts.entry(name).or_insert(0) += 1;
+            }
+        }
+    }
+    let sigkind = if text.contains("SIGSEGV") { "SIGSEGV" } else if text.contains("SIGABRT") { "SIGABRT" } else { "signal" };
+    match counts.into_iter().max_by_key(|(_, c)| *c) {
+        Some((f, c)) if c >= 3 => format!("stack-overflow:{f}"),
+        Some((f, _)) => format!("{sigkind}:{f}"),
+        None => sigkind.to_string(),
+    }
+}
